@@ -17,11 +17,14 @@ import (
 	"time"
 
 	v1 "github.com/fatedier/frp/pkg/config/v1"
+	"github.com/fatedier/frp/pkg/metrics"
 	"github.com/fatedier/frp/pkg/msg"
+	"github.com/fatedier/frp/pkg/transport"
 	"github.com/fatedier/frp/pkg/util/util"
 
 	"verif/mc/drv"
 	"verif/mc/vs"
+	"verif/mc/vs/vctx"
 	cw "verif/mc/worlds/cliworld"
 	sw "verif/mc/worlds/srvworld"
 )
@@ -487,6 +490,28 @@ func scStorm(variant int) func(x *vs.Exec) {
 				}
 			})
 			run(func() { a.Cut() })
+		case 5: // traffic of two users through two proxies while a third proxy comes and goes, with the statistics collector on
+			a.AutoWork()
+			b.AutoWork()
+			if r := a.Reg(&msg.NewProxy{ProxyName: "pa", ProxyType: "tcp", RemotePort: 20001}); r != "ok:20001" {
+				vs.Fail("setup: %s", r)
+			}
+			if r := b.Reg(&msg.NewProxy{ProxyName: "pb", ProxyType: "tcp", RemotePort: 20002}); r != "ok:20002" {
+				vs.Fail("setup: %s", r)
+			}
+			w.Quiesce()
+			for i, port := range []int{20001, 20002} {
+				i, port := i, port
+				run(func() {
+					if who, e := w.UserEcho(fmt.Sprintf("10.8.9.%d:%d", i+1, 40+i), port, "traffic"); e != "" {
+						vs.Observe("user %d: %s %s", i, who, e)
+					}
+				})
+			}
+			run(func() {
+				vs.Observe("pc %s", c.Reg(&msg.NewProxy{ProxyName: "pc", ProxyType: "tcp", RemotePort: 20003}))
+				c.CloseProxy("pc")
+			})
 		case 4: // NAT-hole sessions of two visitors start, are answered / looked up and end concurrently
 			if r := a.Reg(&msg.NewProxy{ProxyName: "x", ProxyType: "xtcp", Sk: "sk", AllowUsers: []string{"*"}}); !strings.HasPrefix(r, "ok") {
 				vs.Fail("setup: %s", r)
@@ -530,6 +555,9 @@ func scStorm(variant int) func(x *vs.Exec) {
 }
 
 func scenarios() {
+	// the in-memory statistics collector (what a server with a dashboard runs) is on for every scenario of this check:
+	// its tables are shared by all sessions and all user connections
+	metrics.EnableMem()
 	vs.ScenarioFactory = func(name string) *vs.Scenario {
 		s := &vs.Scenario{Name: name, Horizon: 1500 * time.Second, MaxSteps: 400000, NoEarlyTick: true, End: sw.StdEnd, Watchdog: time.Minute}
 		f := strings.Split(name, "|")
@@ -551,10 +579,60 @@ func scenarios() {
 			var v int
 			fmt.Sscanf(f[1], "%d", &v)
 			s.Body = scStorm(v)
+		case "lane":
+			s.Body = scLane(f[1])
+			s.End = func(x *vs.Exec) string { return strings.Join(x.Obs, "\n") }
 		default:
 			return nil
 		}
 		return s
+	}
+}
+
+// lane: the request/response helper both programs use on the control connection (frpc's NAT-hole exchanges wait in
+// Do while the connection's read loop hands every NatHoleResp to Dispatch). The peer decides how many answers it
+// sends and when: duplicates, an answer that arrives together with the waiter's timeout, an answer after it.
+type laneSender struct{ ch chan msg.Message }
+
+func (s laneSender) Send(m msg.Message) error { s.ch <- m; return nil }
+
+func scLane(variant string) func(x *vs.Exec) {
+	return func(x *vs.Exec) {
+		out := make(chan msg.Message, 4)
+		tr := transport.NewMessageTransporter(laneSender{out})
+		answers, delay := 1, time.Duration(0)
+		switch variant {
+		case "dup":
+			answers = 3
+		case "late":
+			answers, delay = 2, 2*time.Second
+		case "after":
+			answers, delay = 2, 3*time.Second
+		}
+		readLoopDone := false
+		vs.SetInterest(true)
+		go func() {
+			req := <-out
+			v := req.(*msg.NatHoleVisitor)
+			if delay > 0 {
+				time.Sleep(delay)
+			}
+			for i := 0; i < answers; i++ {
+				tr.DispatchWithType(&msg.NatHoleResp{TransactionID: v.TransactionID, Sid: "sid"}, "NatHoleResp", v.TransactionID)
+			}
+			readLoopDone = true
+		}()
+		ctx, cancel := vctx.WithTimeout(vctx.Background(), 2*time.Second)
+		m, err := tr.Do(ctx, &msg.NatHoleVisitor{TransactionID: "t1", ProxyName: "p"}, "t1", "NatHoleResp")
+		cancel()
+		vs.Observe("lane/%s: answer=%v err=%v", variant, m != nil, err)
+		if m == nil && err == nil {
+			vs.Fail("lane/%s: the waiter returned neither an answer nor an error", variant)
+		}
+		if !vs.BlockOrIdle("read-loop", func() bool { return readLoopDone }) {
+			vs.Fail("lane/%s: the connection's read loop is stuck handing over an answer nobody waits for: the session no longer handles messages", variant)
+		}
+		vs.SetInterest(false)
 	}
 }
 
@@ -577,7 +655,7 @@ func main() {
 	if c == nil {
 		return
 	}
-	c.Rule("E1: (a) all single-field deviations over extreme-value alphabets (negative / huge integers, empty / 9000-char / control-character strings, nil / empty / 300-entry maps, nil / empty / 1000-entry lists, malformed addresses) of all 18 message types (NewProxy for all 8 proxy types) sent to the real frps as first message of a connection and on an established session, and of the server-to-client types sent by a model server to the real frpc; (a2) malformed user-side input on the tcpmux CONNECT port (14 Proxy-Authorization shapes x 2 hosts, 14 malformed request heads) and on the https port (a real ClientHello with each of its first 80 bytes set to 0xff / 0x00 or truncated there); after each case a bystander session, its tunnel, a fresh login and a fresh tunnel must work, no managed thread may have panicked (= process crash) and none may be stuck after teardown; (b) five concurrent mixed-traffic storms (registration / closure / groups / session cut; secret proxies, visitors and NAT-hole messages against closing proxies; re-login with work connections for dying sessions; user connections waiting for a work connection while the session is cut; NAT-hole sessions of two visitors starting, being answered and ending together) under all schedules with at most B deviations (two default orders) with the happens-before detector on every struct-field map of the instrumented packages; non-trivial = distinct (position, type, field, value)")
+	c.Rule("E1: (a) all single-field deviations over extreme-value alphabets (negative / huge integers, empty / 9000-char / control-character strings, nil / empty / 300-entry maps, nil / empty / 1000-entry lists, malformed addresses) of all 18 message types (NewProxy for all 8 proxy types) sent to the real frps as first message of a connection and on an established session, and of the server-to-client types sent by a model server to the real frpc; (a2) malformed user-side input on the tcpmux CONNECT port (14 Proxy-Authorization shapes x 2 hosts, 14 malformed request heads) and on the https port (a real ClientHello with each of its first 80 bytes set to 0xff / 0x00 or truncated there); after each case a bystander session, its tunnel, a fresh login and a fresh tunnel must work, no managed thread may have panicked (= process crash) and none may be stuck after teardown; (b) six concurrent mixed-traffic storms, the statistics collector of the dashboard switched on (registration / closure / groups / session cut; secret proxies, visitors and NAT-hole messages against closing proxies; re-login with work connections for dying sessions; user connections waiting for a work connection while the session is cut; NAT-hole sessions of two visitors starting, being answered and ending together; two users' traffic through two proxies while a third proxy comes and goes) and the control connection's request/response lanes with duplicated, late and too-late answers (3 deviations) under all schedules with at most B deviations (two default orders) with the happens-before detector on every struct-field map of the instrumented packages; non-trivial = distinct (position, type, field, value)")
 	pool := vs.GetPool(c.Workers)
 	var names []string
 	wdummy := map[string]msg.Message{}
@@ -650,8 +728,11 @@ func main() {
 	c.Sample(map[string]any{"cases": []string{names[0], names[len(names)/2], names[len(names)-1]}})
 	c.Note("field_cases", len(names))
 	b := drv.Pick(c, 1, 2)
-	for v := 0; v < 5; v++ {
-		c.ExploreBoth(fmt.Sprintf("storm|%d", v), b, 1.0/float64(5-v))
+	for v := 0; v < 6; v++ {
+		c.ExploreBoth(fmt.Sprintf("storm|%d", v), b, 1.0/float64(6-v+1))
+	}
+	for _, v := range []string{"one", "dup", "late", "after"} {
+		c.ExploreBoth("lane|"+v, 3, 0.25)
 	}
 	c.Finish()
 }
